@@ -684,7 +684,7 @@ pub fn run(args: &Args) -> Report {
         let f = match mode.as_str() {
             "sweeper" => sweeper_run(&mut report, args.seed, r, &scratch.0),
             "bigretire" => bigretire_run(&mut report, args.seed, r, &scratch.0),
-            "midread" => midread_run(&mut report, args.seed, r, &scratch.0),
+            "midread" => midread_run(&mut report, args.seed, r, &scratch.0).or_else(|| ttlchain_run(&mut report, args.seed, r, &scratch.0)),
             _ => ttlcrash_run(&mut report, args.seed, r, &scratch.0),
         };
         if let Some((sig, msg)) = f {
@@ -709,6 +709,118 @@ thread_local! {
 /// 1 s TTL which is flushed (the old extent is retired) and the clock jumps 5 s: what the call finds
 /// when it retries is an *expired* generation, which no value-reading call may return (C11). Also:
 /// the key is deleted / replaced under the call (results must be genuine values or not-found).
+/// TTL-only updates chained while the flusher is busy with the previous one: the value lives on the device only
+/// (flushed, no cache); `update_ttl` #1 creates a deferred generation, the flusher takes it and is held just before
+/// it publishes the new sector (`flush.before_publish`); `update_ttl` / `persist` #2 (and sometimes #3) run in that
+/// window. Afterwards - explicit flush, retirement passes - every value-reading call must still serve the value,
+/// `flush()` must succeed, and a restart must show the LAST expiry.
+fn ttlchain_run(report: &mut Report, seed: u64, rid: u64, dir: &str) -> Option<(String, String)> {
+    let mut rng = Rng::derive(seed, rid, 0x77c4);
+    let mut cfg = Cfg::disk(16 + 256);
+    cfg.ttl = true;
+    cfg.cache = false;
+    cfg.cpus = *rng.pick(&[2usize, 4, 8]);
+    cfg.sync_io = rng.chance(1, 2);
+    let path = format!("{dir}/ttlchain-{rid}.feox");
+    let _ = std::fs::remove_file(&path);
+    let store = Arc::new(storeutil::open(&cfg, Some(&path)).ok()?);
+    let fail = |sig: &str, msg: String| Some((sig.to_string(), msg));
+    let mut failure = None;
+    for round in 0..6u64 {
+        let k = format!("tc-{rid}-{round}").into_bytes();
+        let v = values::make(Tag { key_id: kid(&k), writer: 0, seq: 1 }, 60 + rng.usize_below(9000));
+        if store.insert_with_ttl(&k, &v, 500).is_err() || store.flush().is_err() {
+            continue;
+        }
+        if store.verif_entry(&k).is_none_or(|e| e.resident) {
+            continue;
+        }
+        let ctl = Arc::new(SchedCtl::new(seed ^ rid ^ round, 0, 0).target("flush.before_publish", 1000, 40_000));
+        hub().set_sched(Some(ctl.clone()));
+        if store.update_ttl(&k, 1000).is_err() {
+            hub().set_sched(None);
+            continue;
+        }
+        // wait until a flusher (periodic tick, 100 ms) has taken the deferred generation and sits in front of the
+        // sector publish, then chain the next TTL-only update(s) inside that window
+        let t0 = std::time::Instant::now();
+        let mut in_window = false;
+        while t0.elapsed() < Duration::from_millis(600) {
+            if ctl.summary().iter().any(|(p, arrivals, _, _)| *p == "flush.before_publish" && *arrivals > 0) {
+                in_window = true;
+                break;
+            }
+            std::thread::sleep(Duration::from_micros(300));
+        }
+        let mut last_ttl: Option<u64> = Some(1000);
+        for step in 0..(1 + rng.below(2)) {
+            if rng.chance(1, 3) {
+                if store.persist(&k).is_ok() {
+                    last_ttl = None;
+                }
+            } else {
+                let t = 2000 + step * 500 + rng.below(100);
+                if store.update_ttl(&k, t).is_ok() {
+                    last_ttl = Some(t);
+                }
+            }
+        }
+        let expiry_after = store.verif_entry(&k).map(|e| e.ttl_expiry);
+        std::thread::sleep(Duration::from_millis(60));
+        hub().set_sched(None);
+        report.evaluations += 1;
+        report.count("ttl_chain_rounds", 1);
+        if in_window {
+            report.count("ttl_chain_rounds_inside_the_publish_window", 1);
+            report.nontrivial.insert(fnv_mix(fnv_mix(rid, round), 0x77));
+        }
+        let flushed = store.flush();
+        let _ = store.flush();
+        let checks: Vec<(&str, Result<Vec<u8>, String>)> = vec![
+            ("get", store.get(&k).map_err(|e| err_name(&e))),
+            ("get_bytes", store.get_bytes(&k).map(|b| b.to_vec()).map_err(|e| err_name(&e))),
+            ("range_query", store.range_query(&k, &k, 4).map_err(|e| err_name(&e)).and_then(|r| r.into_iter().next().map(|p| p.1).ok_or_else(|| "empty".to_string()))),
+        ];
+        for (what, got) in checks {
+            if got.as_ref().ok() != Some(&v) {
+                failure = fail("ttlchain:value-lost", format!("key {} lives on the device only; after TTL-only updates chained while the flusher was publishing the first one ({}in the window), {what} answers {:?} instead of the value (flush: {:?})", hex(&k), if in_window { "" } else { "not " }, got.map(|b| values::describe(&b)), flushed.as_ref().map_err(err_name)));
+                break;
+            }
+        }
+        if failure.is_none() {
+            if let Err(e) = &flushed {
+                failure = fail("ttlchain:flush-fails", format!("flush() after chained TTL-only updates of {} fails with {}", hex(&k), err_name(e)));
+            }
+        }
+        if failure.is_some() {
+            break;
+        }
+        // restart: the last expiry survives
+        if round == 5 || rng.chance(1, 3) {
+            let _ = last_ttl;
+            let want = expiry_after;
+            drop(store);
+            let store2 = match storeutil::open(&cfg, Some(&path)) {
+                Ok(s) => s,
+                Err(e) => return fail("ttlchain:reopen", format!("reopen failed: {e:?}")),
+            };
+            let got = store2.verif_entry(&k).map(|e| e.ttl_expiry);
+            let val = store2.get(&k).ok();
+            drop(store2);
+            if got != want || val.as_ref() != Some(&v) {
+                return fail("ttlchain:restart", format!("after a restart key {} has expiry {got:?} (before: {want:?}) and value {:?}", hex(&k), val.map(|b| values::describe(&b))));
+            }
+            report.count("ttl_chain_restarts", 1);
+            let _ = std::fs::remove_file(&path);
+            return None;
+        }
+    }
+    hub().set_sched(None);
+    drop(store);
+    let _ = std::fs::remove_file(&path);
+    failure
+}
+
 fn midread_run(report: &mut Report, seed: u64, rid: u64, dir: &str) -> Option<(String, String)> {
     let mut rng = Rng::derive(seed, rid, 0x31d7);
     let mut cfg = Cfg::disk(16 + 1024);
